@@ -6,6 +6,26 @@ from ..core import digest
 from ..modes import Mode
 
 ID = "C02"
+RULE = ("one run = one swarm-generated grammar in one of 8 semiring modes (Boolean, MaxTimes over rationals, MaxPlus, "
+        "Poly = free commutative user semiring with one indeterminate per rule, Float, Real, Log incl. very small "
+        "probabilities, Expectation) under 3-8 schedules = (presentation: rule permutation / duplicate split or "
+        "merge / injective renaming incl. ints, tuples, token-like names / V insertion order; ChaosSet order seed; "
+        "heap tie-break policy; fresh-name counter start) in an interpreter with a pinned PYTHONHASHSEED; cfg(x), "
+        "Earley, rescaled Earley (float), IncrementalCKY on cnf, all on one shared parser object per schedule, for "
+        "every string up to length 3-4 (always the empty string), sampled members up to length 8 and corruptions; "
+        "materialize(n), n=0..3; compared with the derivation sum computed by the reference in its own arithmetic; "
+        "non-trivial = some string has non-zero weight; distinct = distinct (grammar, schedule) digests")
+COMPONENTS = {
+    "real": ["CFG.__call__/_parse_chart, cnf pipeline, Earley, earley_rescaled.Earley, IncrementalCKY, materialize/"
+             "language/derivations, all shipped weight types used by the mode"],
+    "stub": ["set/frozenset -> ChaosSet/ChaosFrozenSet and arsenal LocatorMaxHeap -> ChaosHeap in the share of "
+             "schedules with the seam on (real_vs_stub)"],
+}
+ASSUMPTIONS = [
+    "reference evaluator sim.ref.Inside in its own arithmetic (sim.modes shadow weights), validated by ./check selftest --oracles",
+    "float-like modes: generated grammars converge (checked by iteration at generation time); tolerance 1e-9 + 1e-6 relative; Log: 1e-6 in log space; Boolean, Poly, MaxPlus exact",
+    "Poly: grammars without cyclic symbols, strings with at most 300 derivation trees",
+]
 MODE_WEIGHTS = [("bool", 3), ("poly", 4), ("maxtimes", 2), ("maxplus", 2),
                 ("float", 5), ("real", 2), ("log", 2), ("expect", 2)]
 
